@@ -86,7 +86,7 @@ def gen_value(ty, rng, i, pv=None, ctx=None):
     if k == 'String':
         # i >= 3: now and then a string whose character count and UTF-8 byte count fall on different sides of a length-prefix boundary
         if i >= 3 and rng.random() < 0.25:
-            v = rng.choice(['\u00e9' * 64, '\u4e2d' * 43, '\U0001f600' * 32, '\u00e9' * 127, '\u4e2d' * 100, '\u0416' * 90, 'x' * 127, 'x' * 128, '\u00e9' * 8192])
+            v = rng.choice(['\u00e9' * 64, '\u4e2d' * 43, '\U0001f600' * 32, '\u00e9' * 127, '\u4e2d' * 100, '\u0416' * 90, 'x' * 127, 'x' * 128, '\u00e9' * 8192, '\ufeffname', '\ufeff', 'e\u0301', ' lead and trail ', '\u200bzw'])
             return v, [2, [ord(c) for c in v]]
         v = ['', 'héllo€\U0001f600', 'x' * 130][i] if i < 3 else ''.join(chr(rng.choice([rng.randrange(32, 127), rng.randrange(0xa0, 0x800), rng.randrange(0x800, 0xd800), rng.randrange(0x10000, 0x10400)])) for _ in range(rng.randrange(0, 20)))
         return v, [2, [ord(c) for c in v]]
